@@ -114,7 +114,8 @@ class PhasePredictor(QTable):
             raise ValueError("Some timestamps outside predictor range!")
 
         span_ends = self["tmid"] + self["span"] / 2
-        index = np.searchsorted(span_ends.mjd, times.mjd)
+        # MJDs on the time scale of the entries (TT or TAI inputs read 69 s / 37 s ahead)
+        index = np.searchsorted(span_ends.mjd, getattr(times, span_ends.scale).mjd)
 
         # Float MJDs resolve only ~1 us: settle times next to a span end exactly
         index = np.minimum(index, len(span_ends) - 1)
